@@ -325,9 +325,15 @@ func (m *Mux) encError(w http.ResponseWriter, r *http.Request, err error) {
 	w.Header().Set("Content-Type", accept)
 	w.WriteHeader(HTTPStatusCode(s.Code()))
 
-	b, err := c.Marshal(s.Proto())
+	p := s.Proto()
+	b, err := c.Marshal(p)
 	if err != nil {
-		panic(err) // ...
+		// The status cannot be encoded as it is (a message that is not
+		// valid UTF-8, details of a type the codec cannot resolve): keep
+		// the code and the readable part of the message.
+		p.Message = strings.ToValidUTF8(p.Message, "\uFFFD")
+		p.Details = nil
+		b, _ = c.Marshal(p)
 	}
 	w.Write(b) //nolint
 }
